@@ -384,6 +384,9 @@ PROPS["C02"] = dict(
 def _c16_with_computed(rng, tier):
     """C16's last clause: the set returned by check_and_compute must itself satisfy the one-mutation-per-slot rule"""
     cases, oracles = gen_types.c16_cases(rng, tier)
+    # signed contracts: valid signatures, tampered ones, and every value of the recovery-id byte
+    c19, _ = gen_types.c19_cases(rng, tier)
+    cases += [c for c in c19 if c.startswith("chksigned ")]
     kinds = [None, "dc", "cd", "cc", "dd_pred", "dd"]
     for i in range(36 if tier == "quick" else 600):
         sols, preds, pbytes = gen_check.c04_set(rng, kinds[i % len(kinds)])
